@@ -187,12 +187,18 @@ protected:
 
     //when try_lock fails, we need to register itself to waiting queue (_requests)
     bool subscribe(awaiter *aw) {
-        //so subscribe to _requests
-        aw->subscribe(_requests);
+        //so subscribe to _requests. Remember the value which has been replaced by our request, this
+        //gives as hint, how lock operation ended. The awaiter itself must not be inspected after
+        //it has been registered: if the mutex is locked, its owner can unlock it at any time, which
+        //relinks and resumes the awaiter
+        awaiter *top = _requests.load(std::memory_order_relaxed);
+        do {
+            aw->_next = top;
+            //release memory order because we need to other thread to see change of _next
+        } while (!_requests.compare_exchange_weak(top, aw, std::memory_order_release, std::memory_order_relaxed));
         COCLS_VERIF_SYNC("mutex.subscribe.published");
-        //now check result of _next, which gives as hint, how lock operation ended
-        //if the _next is null, the lock was unlock
-        if (aw->_next== nullptr) [[likely]] {
+        //if the replaced value is null, the lock was unlock
+        if (top == nullptr) [[likely]] {
             //because current awaiter will be destroyed, we need to replace self
             //with a doorman()
             //the function build_queue does this, even if there is no requests currentl
